@@ -8,7 +8,7 @@ from ..core import Disc, Subcheck, exc_detail, exc_key
 
 PROPERTY_ID = 'C04'
 LEVEL = 'exploration'
-RULE = ('big_header: a 70 000 (300 000)-character object path between two small messages, in one read, in 64 KiB reads and cut '
+RULE = ('For every second partition the pre-authenticated receiver enters message mode through setAuthenticationSucceeded(). big_header: a 70 000 (300 000)-character object path between two small messages, in one read, in 64 KiB reads and cut '
         'around the big message. '
         'stream = 1..6 generated messages (C03 generator, reference-encoded in mixed byte orders; serials, lengths and '
         'strings forced to contain CR LF) behind one of three receivers: pre-authenticated protocol, server role after '
@@ -27,7 +27,7 @@ ASSUMPTIONS = ['the interpreter recursion limit is left at its default',
 GUID = b'0123456789abcdef0123456789abcdef'
 
 
-def _make_receiver(setup):
+def _make_receiver(setup, public=False):
     import txdbus.protocol as P
     from txdbus import authentication as A
 
@@ -55,7 +55,12 @@ def _make_receiver(setup):
     r.transport = N.FakeTransport()
     if setup == 'pre':
         r._receivedFDs = []
-        r._authenticated = True
+        if public:
+            # a protocol that does its own (or no) handshake enters message mode through the method meant for it:
+            # "Called by subclass when the authentication process completes"
+            r.setAuthenticationSucceeded()
+        else:
+            r._authenticated = True
         return r, b''
     P._is_linux = False
     if setup == 'server':
@@ -94,7 +99,7 @@ def _encode(m, le):
 
 
 def _check(case, chunks, setup):
-    r, prefix = _make_receiver(setup)
+    r, prefix = _make_receiver(setup, public=(len(chunks) % 2 == 0))
     # chunks partition prefix+stream
     for ch in chunks:
         try:
